@@ -12,6 +12,7 @@
 #include <arpa/inet.h>
 #include <fcntl.h>
 #include <netinet/in.h>
+#include <poll.h>
 #include <sys/epoll.h>
 #include <sys/eventfd.h>
 #include <sys/resource.h>
@@ -1398,6 +1399,58 @@ int __wrap_epoll_ctl(int epfd, int op, int fd, struct epoll_event* ev)
     }
     }
     return fail(EINVAL);
+}
+
+// ---- poll / ppoll on simulated descriptors (Pistache does not call them; a change that starts to block in poll() on a
+// connection's socket must block in simulated time, not in the real kernel on a descriptor number it does not know)
+int __real_poll(struct pollfd* fds, nfds_t n, int timeout);
+int __wrap_poll(struct pollfd* fds, nfds_t n, int timeout)
+{
+    bool any_sim = false;
+    if (sim::in_sim())
+        for (nfds_t i = 0; i < n; ++i)
+            if (fds[i].fd >= FD_BASE) any_sim = true;
+    if (!any_sim) return __real_poll(fds, n, timeout);
+    sim::point("sys.poll");
+    IgnoreScope ig;
+    k.eagain_streak[sim::self_id()] = 0;
+    auto scan = [fds, n]() {
+        int ready = 0;
+        for (nfds_t i = 0; i < n; ++i) {
+            fds[i].revents = 0;
+            if (fds[i].fd < 0) continue;
+            File* f = get(fds[i].fd);
+            if (!f) {
+                fds[i].revents = POLLNVAL;
+            } else {
+                uint32_t m = f->poll_mask();
+                short want = static_cast<short>(fds[i].events | POLLERR | POLLHUP);
+                short got = 0;
+                if (m & EPOLLIN) got |= POLLIN;
+                if (m & EPOLLOUT) got |= POLLOUT;
+                if (m & EPOLLERR) got |= POLLERR;
+                if (m & EPOLLHUP) got |= POLLHUP;
+                if (m & EPOLLRDHUP) got |= POLLRDHUP;
+                fds[i].revents = static_cast<short>(got & want);
+            }
+            if (fds[i].revents) ready++;
+        }
+        return ready;
+    };
+    int ready = scan();
+    if (ready == 0 && timeout != 0) {
+        const std::function<bool()> pred = [&scan] { return scan() > 0; };
+        i64 deadline = timeout < 0 ? -1 : sim::now_ns() + static_cast<i64>(timeout) * 1000000LL;
+        sim::block_until(pred, deadline, "poll");
+        ready = scan();
+    }
+    return ready;
+}
+int __wrap_ppoll(struct pollfd* fds, nfds_t n, const struct timespec* ts, const sigset_t* /*mask*/)
+{
+    int timeout = -1;
+    if (ts) timeout = static_cast<int>(ts->tv_sec * 1000 + ts->tv_nsec / 1000000);
+    return __wrap_poll(fds, n, timeout);
 }
 
 int __wrap_epoll_wait(int epfd, struct epoll_event* evs, int maxevents, int timeout)
